@@ -64,7 +64,7 @@ func c05RunWith(w *world.World, o *verify.Options) vResult {
 	}
 	joined := world.JoinURLs(w.Getter.URLs)
 	obs := fmt.Sprintf("%s urls=%d:%d now=%s", res, len(w.Getter.URLs), hx.Fnv1a([]byte(joined)), nowS)
-	return vResult{obs, res == "ok", res == "panic", append([]string{}, w.Getter.URLs...), err}
+	return vResult{obs, res == "ok", res == "panic", append([]string{}, w.Getter.URLs...), err, vSide(w, o)}
 }
 
 // c05Emit records a result that was obtained with the world's CURRENT Spec.GC / CR / Now / PoolNil and PoolCerts
@@ -73,6 +73,8 @@ func c05Emit(r *hx.Run, w *world.World, vr vResult, clock time.Time, fail string
 	line := w.Facts(verifyFx, msgTokens(w.Quote), clock)
 	if vr.panicked {
 		fail = "crash in verify.TdxQuote"
+	} else if fail == "" {
+		fail = vr.side
 	}
 	cls := "-"
 	if vr.err != nil {
